@@ -210,6 +210,13 @@ func optsEqual(a, b *spec.ExpandOptions, loaderWas uintptr) (bool, string) {
 	if a.RelativeBase != b.RelativeBase || a.SkipSchemas != b.SkipSchemas || a.ContinueOnError != b.ContinueOnError || a.AbsoluteCircularRef != b.AbsoluteCircularRef {
 		return false, fmt.Sprintf("before %+v after %+v", *b, *a)
 	}
+	// every other field as well, exported or not (the structure is the caller's; a value the library
+	// parks in it is visible to whoever shares it and survives into the caller's next call)
+	ca, cb := *a, *b
+	ca.PathLoader, cb.PathLoader = nil, nil
+	if !reflect.DeepEqual(ca, cb) {
+		return false, fmt.Sprintf("before %+v after %+v", cb, ca)
+	}
 	if (a.PathLoader == nil) != (b.PathLoader == nil) || (a.PathLoader != nil && reflect.ValueOf(a.PathLoader).Pointer() != loaderWas) {
 		return false, "PathLoader was replaced"
 	}
